@@ -56,8 +56,8 @@ def showParsed : Res (List Nat × List Str) → String
 def frontEnd (kind : String) (dbg : Str) : Option (Res (List Nat × List Str)) :=
   match kind with
   | "generic" => some (arrayGeneric dbg)
-  | "tuple" => some (arrayTuple dbg)
-  | "list" => some (arrayList dbg)
+  | "tuple" | "tuple2" | "tuple3" | "tuple2i" => some (arrayTuple dbg)
+  | "list" | "listi" => some (arrayList dbg)
   | "char" => some (arrayChar dbg)
   | "string" => some (arrayString dbg)
   | _ => none
